@@ -31,6 +31,8 @@ type Prog struct {
 	funcs      []*ssa.Function // all functions (incl. anonymous) of repo packages
 	callers    map[*ssa.Function][]ssa.CallInstruction
 	uniqueSite map[*ssa.Function]ssa.CallInstruction
+	helperOK   map[*ssa.Function]bool
+	reach      map[*ssa.Function][]*ssa.Function
 	invokers   map[string][]ssa.CallInstruction // by method name
 
 	// Anchors: fingerprints of the functions the rule tables look up by name, recorded
@@ -39,22 +41,44 @@ type Prog struct {
 	Anchors   map[string]AnchorPrint
 	Lookups   map[string]bool   // every name looked up in this run
 	Relocated map[string]string // anchor -> name it was found under
+	// RenamedName: "pkg|oldName" -> new name (so that call sites naming the old method
+	// are matched too)
+	RenamedName map[string]string
+}
+
+// ResolveAnchors relocates, eagerly, every recorded anchor that is no longer found under
+// its name (so that call-site matching by name follows the rename as well).
+func (p *Prog) ResolveAnchors() {
+	var keys []string
+	for k := range p.Anchors {
+		keys = append(keys, k)
+	}
+	sort.Strings(keys)
+	for _, k := range keys {
+		parts := strings.SplitN(k, "|", 3)
+		if p.funcByName(parts[0], parts[1], parts[2]) == nil {
+			p.relocate(k, parts[0], parts[1])
+		}
+	}
 }
 
 // AnchorPrint is what identifies an anchor function besides its name.
 type AnchorPrint struct {
 	Params  int      `json:"params"`
 	Results int      `json:"results"`
-	Callees []string `json:"callees"` // distinct callee ids (static and interface methods)
+	Sig     string   `json:"sig"`     // parameter and result types
+	Callees []string `json:"callees"` // distinct callee ids (static and interface methods), self excluded
+	Callers []string `json:"callers"` // functions with a static call (or possible dynamic dispatch) to it, self excluded
 }
 
 // Fingerprint computes the AnchorPrint of fn.
 func Fingerprint(fn *ssa.Function) AnchorPrint {
 	set := map[string]bool{}
+	self := FuncID(fn).String()
 	for _, g := range WithClosures(fn) {
 		Instrs(g, func(in ssa.Instruction) {
 			if ci, ok := in.(ssa.CallInstruction); ok {
-				if id, ok := Callee(ci.Common()); ok && id.Pkg != "builtin" {
+				if id, ok := Callee(ci.Common()); ok && id.Pkg != "builtin" && id.String() != self && id.Name != fn.Name() {
 					set[id.String()] = true
 				}
 			}
@@ -65,7 +89,27 @@ func Fingerprint(fn *ssa.Function) AnchorPrint {
 		cs = append(cs, k)
 	}
 	sort.Strings(cs)
-	return AnchorPrint{Params: len(fn.Params), Results: fn.Signature.Results().Len(), Callees: cs}
+	cset := map[string]bool{}
+	if Current != nil {
+		for _, ci := range Current.Callers(fn) {
+			if ci.Parent() != fn && ci.Parent() != nil {
+				r := ci.Parent()
+				for r.Parent() != nil {
+					r = r.Parent()
+				}
+				if r != fn {
+					cset[FuncName(r)] = true
+				}
+			}
+		}
+	}
+	var callers []string
+	for k := range cset {
+		callers = append(callers, k)
+	}
+	sort.Strings(callers)
+	sig := types.TypeString(types.NewSignatureType(nil, nil, nil, fn.Signature.Params(), fn.Signature.Results(), fn.Signature.Variadic()), func(p *types.Package) string { return p.Name() })
+	return AnchorPrint{Params: len(fn.Params), Results: fn.Signature.Results().Len(), Sig: sig, Callees: cs, Callers: callers}
 }
 
 // Load loads every package of the module at dir. Any type error in a repo package is
@@ -122,6 +166,8 @@ func Load(dir string, env []string) (*Prog, error) {
 func (p *Prog) index() {
 	p.callers = map[*ssa.Function][]ssa.CallInstruction{}
 	p.uniqueSite = map[*ssa.Function]ssa.CallInstruction{}
+	p.helperOK = map[*ssa.Function]bool{}
+	p.reach = map[*ssa.Function][]*ssa.Function{}
 	Current = p
 	p.invokers = map[string][]ssa.CallInstruction{}
 	seen := map[*ssa.Function]bool{}
@@ -226,8 +272,15 @@ func (p *Prog) Func(pkg, recv, name string) *ssa.Function {
 // relocate finds a renamed unexported anchor by its fingerprint: same package, same
 // receiver type, same arity, and — uniquely — at least 80% of the recorded callees.
 func (p *Prog) relocate(key, pkg, recv string) *ssa.Function {
+	if v, ok := p.Relocated[key]; ok {
+		for _, f := range p.funcs {
+			if FuncName(f) == v {
+				return f
+			}
+		}
+	}
 	fp, ok := p.Anchors[key]
-	if !ok || len(fp.Callees) < 2 {
+	if !ok {
 		return nil
 	}
 	full := pkg
@@ -237,6 +290,10 @@ func (p *Prog) relocate(key, pkg, recv string) *ssa.Function {
 	want := map[string]bool{}
 	for _, c := range fp.Callees {
 		want[c] = true
+	}
+	wantCallers := map[string]bool{}
+	for _, c := range fp.Callers {
+		wantCallers[c] = true
 	}
 	var best *ssa.Function
 	nBest := 0
@@ -251,14 +308,30 @@ func (p *Prog) relocate(key, pkg, recv string) *ssa.Function {
 		if r != recv || len(f.Params) != fp.Params || f.Signature.Results().Len() != fp.Results {
 			continue
 		}
-		// still reachable under its recorded name? then it is not a rename target
+		// a function that is itself a recorded anchor under its own name is not a rename target
+		own := strings.TrimPrefix(full, ModPath+"/") + "|" + r + "|" + f.Name()
+		if _, isAnchor := p.Anchors[own]; isAnchor {
+			continue
+		}
+		g := Fingerprint(f)
+		if fp.Sig != "" && g.Sig != fp.Sig {
+			continue
+		}
 		hit := 0
-		for _, c := range Fingerprint(f).Callees {
+		for _, c := range g.Callees {
 			if want[c] {
 				hit++
 			}
 		}
-		if hit*5 >= len(fp.Callees)*4 {
+		callerHit := 0
+		for _, c := range g.Callers {
+			if wantCallers[c] {
+				callerHit++
+			}
+		}
+		okCallees := len(fp.Callees) >= 2 && hit*5 >= len(fp.Callees)*4
+		okCallers := len(fp.Callers) > 0 && callerHit == len(fp.Callers) && hit == len(fp.Callees)
+		if okCallees || okCallers {
 			nBest++
 			best = f
 		}
@@ -269,7 +342,12 @@ func (p *Prog) relocate(key, pkg, recv string) *ssa.Function {
 	if p.Relocated == nil {
 		p.Relocated = map[string]string{}
 	}
+	if p.RenamedName == nil {
+		p.RenamedName = map[string]string{}
+	}
 	p.Relocated[key] = FuncName(best)
+	parts := strings.SplitN(key, "|", 3)
+	p.RenamedName[parts[0]+"|"+parts[2]] = best.Name()
 	return best
 }
 
